@@ -832,3 +832,1045 @@ def _conds_hold(conds, env):
         if not val:
             return False
     return True
+
+
+# ====================================================================================== C33-SHAPE (fourth round)
+"""C33-SHAPE — the container / string / array conversion templates of CppConvert.pyx and CConvert.pyx have the SHAPE of the
+conversion they are named after.  Each template function is read as a Python AST (C declarations and casts rewritten by
+the checker) and interpreted SYMBOLICALLY: loops are run once on a generic element / index / iterator position, locals are
+replaced by their symbolic values, effects (push_back, insert, o[k] = v, SET_ITEM, INCREF, attribute stores) are recorded
+with the loop they happen in.  The facts are compared with the specification of the conversion:
+
+  <seq>.from_py   one loop over the Python iterable, one push_back / insert of <X>(current item) per iteration, container returned
+  map.from_py     loop over o.items(), insert(pair[X,Y](<X>key, <Y>value)) — key first
+  pair.from_py    pair[X,Y](<X>(1st of o), <Y>(2nd of o));   complex.from_py  std_complex[X](<X>z.real, <X>z.imag)
+  string.from_py  string(data, length) with the length the buffer helper stored
+  vector/list/carray.to_py  a new list/tuple of exactly size() slots, slot I <- element I for every I in [0, size()), each item
+                  INCREF'ed before the reference-stealing SET_ITEM, size() range-checked before the cast to Py_ssize_t
+  set.to_py {e for e in s};  pair.to_py (first, second);  map.to_py  o[first] = second for every position;
+  complex.to_py  real <- real(), imag <- imag();  string.to_py  FromStringAndSize(data(), size()) behind the range check
+  carray.from_py  (interpreted for array lengths 1..3 x iterables of 0..4 items x with / without len()):  returns 0 exactly
+                  when the item count equals the length, having stored item i into v[i]; never writes v[i] for i >= length;
+                  every other count raises IndexError.
+"""
+CPPCONV = 'Cython/Utility/CppConvert.pyx'
+
+
+def pyx_sections(src):
+    parts = re.split(r'^#{10,} (\S+) #{10,}[ \t]*\n', src, flags=re.M)
+    out = {}
+    for name, body in zip(parts[1::2], parts[2::2]):
+        out[name] = (body, src.count('\n', 0, src.index(body)) + 1)
+    return out
+
+
+def template_functions(text):
+    """-> [(name, FunctionDef, line offset)] for every `cdef ... name(params) ...:` function of a section (Tempita expressions -> TPL,
+    C declarations and casts rewritten: `cdef T x = e` -> `x = __decl__('T', e)`, `<T>e` -> `__cast__T ** e`, `&e` -> `e`)."""
+    text = re.sub(r'\{\{\s*for\b.*?\}\}|\{\{\s*endfor\s*\}\}', '', text, flags=re.S)
+    text = re.sub(r'\{\{.*?\}\}', 'TPL', text, flags=re.S)
+    lines = text.split('\n')
+    out = []
+    i = 0
+    while i < len(lines):
+        l = lines[i]
+        m = re.match(r'^cdef\s+(?:inline\s+)?(.*?)\b([A-Za-z_]\w*)\s*\((.*)\)\s*(?:except[^:]*|noexcept)?\s*:\s*$', l)
+        if not m or l.startswith('cdef extern') or 'cppclass' in l:
+            i += 1
+            continue
+        name, params = m.group(2), []
+        for a in m.group(3).split(','):
+            a = a.strip()
+            if a:
+                ids = re.findall(r'[A-Za-z_]\w*', a.split('=')[0])
+                params.append(ids[-1])
+        body = []
+        j = i + 1
+        while j < len(lines) and (not lines[j].strip() or lines[j].startswith((' ', '\t'))):
+            body.append(lines[j])
+            j += 1
+        src = 'def %s(%s):\n%s\n' % (name, ', '.join(params), '\n'.join(_rewrite_line(b) for b in body) or '    pass')
+        try:
+            fn = ast.parse(src).body[0]
+        except SyntaxError as e:
+            raise AnalysisError('C33-SHAPE: template function %s is not parsable after rewriting the C syntax: %s' % (name, e))
+        out.append((name, fn, i))
+        i = j
+    return out
+
+
+def _rewrite_line(l):
+    if not l.strip() or l.strip().startswith('#'):
+        return ''
+    ind = re.match(r'^\s*', l).group(0)
+    body = l[len(ind):]
+    body = re.sub(r'\s+#.*$', '', body) if '"' not in body and "'" not in body else body
+    m = re.match(r'^cdef\s+(.*)$', body)
+    if m:
+        rest = m.group(1)
+        if '=' in rest and not re.search(r'[<>!=]=', rest.split('=')[0] + '='[:0]):
+            lhs, rhs = rest.split('=', 1)
+            ids = re.findall(r'[A-Za-z_]\w*', lhs)
+            tname = ' '.join(lhs.replace('*', ' ').split()[:-1]) or 'object'
+            body = '%s = __decl__(%r, %s)' % (ids[-1], tname, rhs.strip())
+        else:
+            body = 'pass'
+    # casts
+    body = re.sub(r'<\s*([A-Za-z_]\w*(?:\s+[A-Za-z_]\w*)*)\s*>\s*(?=[A-Za-z_(])', lambda mm: '__cast__%s ** ' % '_'.join(mm.group(1).split()), body)
+    # address-of
+    body = re.sub(r'(?<=[(,=])\s*&\s*(?=[A-Za-z_])', ' ', body)
+    return ind + body
+
+
+class Facts:
+    def __init__(self):
+        self.effects, self.returns, self.raises, self.loops, self.news = [], [], [], {}, {}
+        self.problems = []
+
+
+class SymInterp:
+    """Symbolic interpretation of one template function.  Values are nested tuples (structural equality)."""
+
+    def __init__(self, what):
+        self.what = what
+        self.f = Facts()
+        self.ctx = ()
+        self.nid = 0
+
+    def fresh(self):
+        self.nid += 1
+        return self.nid
+
+    def run(self, fn):
+        env = {a.arg: ('param', a.arg) for a in fn.args.args}
+        self.block(fn.body, env)
+        return self.f
+
+    def block(self, stmts, env):
+        for s in stmts:
+            if self.stmt(s, env) == 'stop':
+                return 'stop'
+        return None
+
+    # ------------------------------------------------------------------ expressions
+    def ev(self, e, env):
+        if isinstance(e, ast.Constant):
+            return ('const', e.value)
+        if isinstance(e, ast.Name):
+            if e.id in env:
+                return env[e.id]
+            return ('global', e.id)
+        if isinstance(e, ast.Tuple):
+            return ('tuple',) + tuple(self.ev(x, env) for x in e.elts)
+        if isinstance(e, ast.Attribute):
+            return ('attr', self.ev(e.value, env), e.attr)
+        if isinstance(e, ast.BinOp) and isinstance(e.op, ast.Pow) and isinstance(e.left, ast.Name) and e.left.id.startswith('__cast__'):
+            return ('cast', e.left.id[len('__cast__'):], self.ev(e.right, env))
+        if isinstance(e, ast.BinOp):
+            return ('binop', type(e.op).__name__, self.ev(e.left, env), self.ev(e.right, env))
+        if isinstance(e, ast.UnaryOp):
+            return ('unop', type(e.op).__name__, self.ev(e.operand, env))
+        if isinstance(e, ast.Compare) and len(e.ops) == 1:
+            return ('cmp', type(e.ops[0]).__name__, self.ev(e.left, env), self.ev(e.comparators[0], env))
+        if isinstance(e, ast.BoolOp):
+            return ('bool', type(e.op).__name__) + tuple(self.ev(v, env) for v in e.values)
+        if isinstance(e, ast.IfExp):
+            return ('ifexp', self.ev(e.test, env), self.ev(e.body, env), self.ev(e.orelse, env))
+        if isinstance(e, ast.Subscript):
+            base = self.ev(e.value, env)
+            idx = self.ev(e.slice, env)
+            if isinstance(e.value, ast.Name) and e.value.id not in env:
+                return ('template', e.value.id, idx)                    # pair[X,Y] / vector[X]: a type expression
+            return ('index', base, idx)
+        if isinstance(e, ast.Dict) and not e.keys:
+            n = self.fresh()
+            self.f.news[n] = ('dict', None)
+            return ('new', 'dict', n)
+        if isinstance(e, (ast.SetComp, ast.ListComp, ast.GeneratorExp)) and len(e.generators) == 1 and not e.generators[0].ifs:
+            g = e.generators[0]
+            lid = self.fresh()
+            src = self.ev(g.iter, env)
+            self.f.loops[lid] = {'kind': 'forin', 'source': src, 'ctx': self.ctx}
+            env2 = dict(env)
+            self.bind(g.target, ('elem', src, lid), env2)
+            return ({ast.SetComp: 'setcomp', ast.ListComp: 'listcomp', ast.GeneratorExp: 'genexp'}[type(e)], self.ev(e.elt, env2), src, lid)
+        if isinstance(e, ast.JoinedStr):
+            return ('text',)
+        if isinstance(e, ast.Call):
+            return self.call(e, env)
+        raise AnalysisError('%s: expression %s is not modelled' % (self.what, ast.unparse(e)[:60]))
+
+    def call(self, e, env):
+        args = tuple(self.ev(a, env) for a in e.args)
+        f = e.func
+        if isinstance(f, ast.Name) and f.id == '__decl__':
+            return ('decl', args[0][1], args[1])
+        if isinstance(f, ast.Name) and f.id == 'range':
+            return ('range',) + args
+        if isinstance(f, ast.Name) and f.id in ('PyList_New', 'PyTuple_New') and len(args) == 1:
+            n = self.fresh()
+            self.f.news[n] = ('list' if f.id == 'PyList_New' else 'tuple', args[0])
+            return ('new', self.f.news[n][0], n)
+        fv = self.ev(f, env)
+        # cython.operator.dereference(it) on an iterator position
+        if fv == ('attr', ('attr', ('global', 'cython'), 'operator'), 'dereference') and len(args) == 1 and args[0][0] == 'pos':
+            return ('elem', args[0][1], args[0][2])
+        if fv[0] == 'attr' and fv[2] == 'size' and not args:
+            return ('size', fv[1])
+        if fv[0] == 'attr' and fv[2] == 'begin' and not args:
+            return ('begin', fv[1])
+        if fv[0] == 'attr' and fv[2] == 'end' and not args:
+            return ('end', fv[1])
+        return ('call', fv) + args
+
+    # ------------------------------------------------------------------ statements
+    def bind(self, target, v, env):
+        if isinstance(target, ast.Name):
+            env[target.id] = v
+        elif isinstance(target, (ast.Tuple, ast.List)):
+            n = len(target.elts)
+            for i, t in enumerate(target.elts):
+                self.bind(t, ('unpack', v, i, n), env)
+        else:
+            raise AnalysisError('%s: binding target %s is not modelled' % (self.what, ast.unparse(target)))
+
+    def effect(self, op, *args):
+        self.f.effects.append((op, args, self.ctx))
+
+    def stmt(self, s, env):
+        if isinstance(s, ast.Pass):
+            return None
+        if isinstance(s, ast.Assign) and len(s.targets) == 1:
+            v = self.ev(s.value, env)
+            t = s.targets[0]
+            if isinstance(t, (ast.Name, ast.Tuple, ast.List)):
+                self.bind(t, v, env)
+            elif isinstance(t, ast.Attribute):
+                self.effect('attrset', self.ev(t.value, env), t.attr, v)
+            elif isinstance(t, ast.Subscript):
+                self.effect('setitem', self.ev(t.value, env), self.ev(t.slice, env), v)
+            else:
+                raise AnalysisError('%s: assignment %s is not modelled' % (self.what, ast.unparse(s)[:60]))
+            return None
+        if isinstance(s, ast.AugAssign) and isinstance(s.target, ast.Name) and isinstance(s.op, (ast.Add, ast.Sub)):
+            cur = env.get(s.target.id)
+            inc = self.ev(s.value, env)
+            if cur is not None and cur[0] == 'count' and isinstance(s.op, ast.Add) and inc == ('const', 1) and self.ctx and self.ctx[-1] == ('loop', cur[1]):
+                env[s.target.id] = ('count+1', cur[1], cur[2])
+            else:
+                env[s.target.id] = ('binop', type(s.op).__name__, cur, inc)
+            return None
+        if isinstance(s, ast.Expr):
+            if isinstance(s.value, ast.Constant):
+                return None
+            v = self.ev(s.value, env)
+            if v[0] == 'call':
+                fv, args = v[1], v[2:]
+                if fv[0] == 'global':
+                    self.effect(fv[1], *args)
+                elif fv == ('attr', ('attr', ('global', 'cython'), 'operator'), 'preincrement'):
+                    self.effect('advance', *args)
+                elif fv[0] == 'attr':
+                    self.effect('method:' + fv[2], fv[1], *args)
+                else:
+                    self.effect('call', fv, *args)
+            return None
+        if isinstance(s, ast.Return):
+            self.f.returns.append((self.ev(s.value, env) if s.value is not None else None, self.ctx))
+            return 'stop' if not self.ctx else None
+        if isinstance(s, ast.Raise):
+            exc = s.exc.func.id if isinstance(s.exc, ast.Call) and isinstance(s.exc.func, ast.Name) else (s.exc.id if isinstance(s.exc, ast.Name) else '?')
+            self.f.raises.append((exc, self.ctx))
+            return None
+        if isinstance(s, ast.If):
+            cond = self.ev(s.test, env)
+            saved = self.ctx
+            self.ctx = saved + (('if', cond),)
+            env2 = dict(env)
+            self.block(s.body, env2)
+            self.ctx = saved + (('else', cond),)
+            env3 = dict(env)
+            self.block(s.orelse, env3)
+            self.ctx = saved
+            for k in set(env2) | set(env3):
+                if env2.get(k) == env3.get(k):
+                    env[k] = env2.get(k)
+                elif env2.get(k) != env.get(k) or env3.get(k) != env.get(k):
+                    env[k] = ('phi', cond, env2.get(k), env3.get(k))
+            return None
+        if isinstance(s, ast.For) and not s.orelse:
+            it = self.ev(s.iter, env)
+            lid = self.fresh()
+            saved = self.ctx
+            if it[0] == 'range':
+                self.f.loops[lid] = {'kind': 'range', 'args': it[1:], 'ctx': saved}
+                self.bind(s.target, ('idx', lid), env)
+            else:
+                self.f.loops[lid] = {'kind': 'forin', 'source': it, 'ctx': saved}
+                self.bind(s.target, ('elem', it, lid), env)
+            self.loop_body(s.body, env, lid, saved)
+            return None
+        if isinstance(s, ast.While) and not s.orelse:
+            cond = _norm(self.ev(s.test, env))
+            lid = self.fresh()
+            saved = self.ctx
+            if cond[0] == 'cmp' and cond[1] == 'NotEq' and cond[2][0] == 'begin' and cond[3][0] == 'end' and cond[2][1] == cond[3][1] and isinstance(s.test.left, ast.Name):
+                self.f.loops[lid] = {'kind': 'iter', 'source': cond[2][1], 'ctx': saved, 'var': s.test.left.id}
+                env[s.test.left.id] = ('pos', cond[2][1], lid)
+            else:
+                raise AnalysisError('%s: while loop with condition %s is not modelled' % (self.what, ast.unparse(s.test)))
+            self.loop_body(s.body, env, lid, saved)
+            return None
+        raise AnalysisError('%s: statement %s is not modelled' % (self.what, ast.unparse(s)[:60]))
+
+    def loop_body(self, body, env, lid, saved):
+        # counters: `x += 1` at the top level of the body with a known constant start
+        counters = {}
+        for st in body:
+            if isinstance(st, ast.AugAssign) and isinstance(st.target, ast.Name) and isinstance(st.op, ast.Add) and isinstance(st.value, ast.Constant) and st.value.value == 1:
+                init = env.get(st.target.id)
+                if init is not None and init[0] == 'decl':
+                    init = init[2]
+                if init is not None and init[0] == 'const' and isinstance(init[1], int):
+                    counters[st.target.id] = init[1]
+        for k, c0 in counters.items():
+            env[k] = ('count', lid, c0)
+        self.f.loops[lid]['counters'] = dict(counters)
+        self.ctx = saved + (('loop', lid),)
+        for st in body:
+            if isinstance(st, (ast.Break, ast.Continue)):
+                self.f.problems.append('a %s inside a conversion loop' % type(st).__name__.lower())
+                continue
+            self.stmt(st, env)
+        self.ctx = saved
+        for k, c0 in counters.items():
+            env[k] = ('total', lid, c0)
+
+
+# ---------------------------------------------------------------------------------------------- specifications
+def _strip_decl(v):
+    while isinstance(v, tuple) and v and v[0] == 'decl':
+        v = v[2]
+    return v
+
+
+def _norm(v):
+    """drop declaration wrappers everywhere"""
+    if isinstance(v, tuple):
+        if v and v[0] == 'decl':
+            return _norm(v[2])
+        return tuple(_norm(x) for x in v)
+    return v
+
+
+def _loops_of(ctx):
+    return [c[1] for c in ctx if c[0] == 'loop']
+
+
+def _conds_of(ctx):
+    return [c for c in ctx if c[0] in ('if', 'else')]
+
+
+def _size_guard(f, container):
+    """a top-level `if <container>.size() > <size_t> PY_SSIZE_T_MAX: raise MemoryError()`"""
+    for exc, ctx in f.raises:
+        if exc == 'MemoryError' and len(ctx) == 1 and ctx[0][0] == 'if':
+            c = _norm(ctx[0][1])
+            if c[0] == 'cmp' and c[1] in ('Gt', 'GtE') and c[2] == ('size', container) and 'PY_SSIZE_T_MAX' in repr(c[3]):
+                return True
+    return False
+
+
+def _ret(f, what, probs):
+    rets = [r for r, ctx in f.returns if not ctx]
+    if len(rets) != 1 or len(f.returns) != 1:
+        probs.append('%s does not end in exactly one unconditional return' % what)
+        return None
+    return _norm(rets[0])
+
+
+def _ctor(v, name, nargs):
+    """v = <name>[..](args) -> args or None"""
+    if v and v[0] == 'call' and len(v) == 2 + nargs:
+        f = v[1]
+        if (f[0] == 'template' and f[1] == name) or f == ('global', name):
+            return v[2:]
+    return None
+
+
+def spec_seq_from(f, what, param, methods, elem_type='X'):
+    probs = list(f.problems)
+    ret = _ret(f, what, probs)
+    adds = [e for e in f.effects if e[0].startswith('method:') and e[0].split(':')[1] in methods]
+    loops = [l for l, d in f.loops.items() if d['kind'] == 'forin' and _norm(d['source']) == ('param', param) and not d['ctx']]
+    if len(loops) != 1:
+        probs.append('%s does not iterate its argument in exactly one top-level loop' % what)
+        return probs
+    lid = loops[0]
+    if len(adds) != 1:
+        probs.append('%s performs %d insertions (%s) instead of one per item' % (what, len(adds), '/'.join(methods)))
+        return probs
+    op, args, ctx = adds[0]
+    if ctx != (('loop', lid),):
+        probs.append('the insertion of %s is not executed exactly once per item of the loop over its argument' % what)
+    want = ('cast', elem_type, ('elem', ('param', param), lid))
+    if _norm(args[1]) != want:
+        probs.append('%s inserts %s instead of <%s>(the current item): the container does not receive the converted elements of the iterable' % (what, show(_norm(args[1])), elem_type))
+    if ret is not None and ret != _norm(args[0]):
+        probs.append('%s returns %s, not the container it filled' % (what, show(ret)))
+    return probs
+
+
+def spec_map_from(f, what):
+    probs = list(f.problems)
+    ret = _ret(f, what, probs)
+    src = ('call', ('attr', ('param', 'o'), 'items'))
+    loops = [l for l, d in f.loops.items() if d['kind'] == 'forin' and _norm(d['source']) == src and not d['ctx']]
+    if len(loops) != 1:
+        probs.append('%s does not loop over o.items() (the key/value pairs of the mapping)' % what)
+        return probs
+    lid = loops[0]
+    adds = [e for e in f.effects if e[0] == 'method:insert']
+    if len(adds) != 1 or adds[0][2] != (('loop', lid),):
+        probs.append('%s does not insert exactly once per item' % what)
+        return probs
+    el = ('elem', src, lid)
+    a = _ctor(_norm(adds[0][1][1]), 'pair', 2)
+    want = (('cast', 'X', ('unpack', el, 0, 2)), ('cast', 'Y', ('unpack', el, 1, 2)))
+    if a != want:
+        probs.append('%s inserts %s instead of pair[X,Y](<X>key, <Y>value) of the current (key, value) item: keys and values of the dict do not arrive as first / second' % (what, show(_norm(adds[0][1][1]))))
+    if ret is not None and ret != _norm(adds[0][1][0]):
+        probs.append('%s returns %s, not the map it filled' % (what, show(ret)))
+    return probs
+
+
+def spec_pair_from(f, what):
+    probs = list(f.problems)
+    ret = _ret(f, what, probs)
+    if ret is None:
+        return probs
+    a = _ctor(ret, 'pair', 2)
+    o = ('param', 'o')
+    if a != (('cast', 'X', ('unpack', o, 0, 2)), ('cast', 'Y', ('unpack', o, 1, 2))):
+        probs.append('%s returns %s instead of pair[X,Y](<X>(first of o), <Y>(second of o))' % (what, show(ret)))
+    return probs
+
+
+def spec_complex_from(f, what):
+    probs = list(f.problems)
+    ret = _ret(f, what, probs)
+    if ret is None:
+        return probs
+    a = _ctor(ret, 'std_complex', 2)
+    o = ('param', 'o')
+    if a != (('cast', 'X', ('attr', o, 'real')), ('cast', 'X', ('attr', o, 'imag'))):
+        probs.append('%s returns %s instead of std_complex[X](<X>z.real, <X>z.imag)' % (what, show(ret)))
+    return probs
+
+
+def spec_string_from(f, what):
+    probs = list(f.problems)
+    rets = [(r, ctx) for r, ctx in f.returns]
+    if len(rets) != 1:
+        probs.append('%s does not end in one return' % what)
+        return probs
+    raw = rets[0][0]
+    a = _ctor(_norm(raw), 'string', 2)
+    if a is None:
+        probs.append('%s returns %s instead of string(data, length): without the length, bytes behind an embedded NUL are lost' % (what, show(_norm(raw))))
+        return probs
+    data, length = a
+    if not (data[0] == 'call' and data[1][0] == 'global' and 'AsStringAndSize' in data[1][1] and data[2] == ('param', 'o')):
+        probs.append('%s does not take the buffer from __Pyx_PyObject_AsStringAndSize(o, &length)' % what)
+        return probs
+    # the length variable handed to the helper is the one used for the constructor
+    if length[0] != 'cast' or length[2] != data[3]:
+        probs.append('%s passes %s as size, not the length variable the buffer helper filled (%s)' % (what, show(length), show(data[3])))
+    return probs
+
+
+def spec_indexed_to(f, what, kind, size_of, source, need_guard):
+    """new list/tuple of size N; for I in range(N): INCREF(src[I]); SET_ITEM(new, I, src[I]); return new.   size_of(N) checks N; source(I) is the element read."""
+    probs = list(f.problems)
+    ret = _ret(f, what, probs)
+    if ret is None:
+        return probs
+    if not (ret[0] == 'new' and ret[1] == kind):
+        probs.append('%s does not return a new %s' % (what, kind))
+        return probs
+    n = _norm(f.news[ret[2]][1])
+    if not size_of(n):
+        probs.append('%s allocates the %s with %s slots, not the element count' % (what, kind, show(n)))
+    sets = [e for e in f.effects if e[0].endswith('_SET_ITEM')]
+    if len(sets) != 1:
+        probs.append('%s has %d SET_ITEM calls' % (what, len(sets)))
+        return probs
+    op, args, ctx = sets[0]
+    lids = _loops_of(ctx)
+    if len(ctx) != 1 or len(lids) != 1:
+        probs.append('the SET_ITEM of %s is not executed exactly once per position' % what)
+        return probs
+    lid = lids[0]
+    loop = f.loops[lid]
+    tgt, idx, val = (_norm(a) for a in args)
+    if tgt != ret:
+        probs.append('%s stores the items into %s, not into the %s it returns' % (what, show(tgt), kind))
+    if loop['kind'] == 'range':
+        rargs = tuple(_norm(a) for a in loop['args'])
+        if not (len(rargs) == 1 and rargs[0] == n or len(rargs) == 2 and rargs[0] == ('const', 0) and rargs[1] == n):
+            probs.append('%s fills the slots range(%s) of a %s with %s slots: the remaining slots stay NULL (or the loop overruns)' % (what, ', '.join(show(a) for a in rargs), kind, show(n)))
+        if idx != ('idx', lid):
+            probs.append('%s stores every element into slot %s instead of the slot of the loop index' % (what, show(idx)))
+        if val != source(('idx', lid)) and val != source(('cast', 'size_t', ('idx', lid))):
+            probs.append('%s stores %s into slot I, not element I of the source' % (what, show(val)))
+    elif loop['kind'] in ('iter', 'forin'):
+        if idx[0] != 'count' or idx[1] != lid or idx[2] != 0:
+            probs.append('%s stores the elements at index %s, which is not a counter that starts at 0 and is incremented once per element after the store: slots stay NULL / items are overwritten' % (what, show(idx)))
+        if val != source(lid):
+            probs.append('%s stores %s, not the element at the iterator position' % (what, show(val)))
+        adv = [e for e in f.effects if e[0] == 'advance' and e[2] == (('loop', lid),)]
+        if loop['kind'] == 'iter' and len(adv) != 1:
+            probs.append('%s advances its iterator %d times per element' % (what, len(adv)))
+    else:
+        probs.append('%s fills the %s in a loop that is neither an index range nor an iterator walk' % (what, kind))
+    # the reference handed to the stealing SET_ITEM must have been INCREF'ed in the same iteration, before
+    k = f.effects.index(sets[0])
+    inc = [e for e in f.effects[:k] if e[0] == 'Py_INCREF' and e[2] == ctx and _norm(e[1][0]) == val]
+    if len(inc) != 1:
+        probs.append('%s hands the item to %s (which steals a reference) %s Py_INCREF of that item in the same iteration: %s' % (
+            what, op, 'without a' if not inc else 'after %d' % len(inc), 'the list ends up with references it does not own (elements freed while referenced)' if not inc else 'the items leak'))
+    if need_guard is not None and not _size_guard(f, need_guard):
+        probs.append('%s casts size() to Py_ssize_t without the `size() > PY_SSIZE_T_MAX -> MemoryError` check' % what)
+    return probs
+
+
+def show(v):
+    if not isinstance(v, tuple) or not v:
+        return repr(v)
+    k = v[0]
+    if k == 'param' or k == 'global':
+        return v[1]
+    if k == 'const':
+        return repr(v[1])
+    if k == 'cast':
+        return '<%s>%s' % (v[1], show(v[2]))
+    if k == 'attr':
+        return '%s.%s' % (show(v[1]), v[2])
+    if k == 'unpack':
+        return '%s[%d of %d]' % (show(v[1]), v[2], v[3])
+    if k == 'elem':
+        return 'item(%s)' % show(v[1])
+    if k == 'idx':
+        return 'I'
+    if k == 'size':
+        return '%s.size()' % show(v[1])
+    if k == 'index':
+        return '%s[%s]' % (show(v[1]), show(v[2]))
+    if k == 'call':
+        return '%s(%s)' % (show(v[1]), ', '.join(show(a) for a in v[2:]))
+    if k == 'template':
+        return '%s[..]' % v[1]
+    if k == 'tuple':
+        return '(%s)' % ', '.join(show(a) for a in v[1:])
+    if k in ('count', 'count+1', 'total'):
+        return {'count': 'n', 'count+1': 'n+1', 'total': 'N'}[k]
+    if k == 'new':
+        return 'new %s' % v[1]
+    return '%s(%s)' % (k, ', '.join(show(a) for a in v[1:]))
+
+
+def shape_checks():
+    """section -> list of (function index or None, spec(f, what) -> problems)"""
+    ssize = lambda c: (lambda n: n == ('cast', 'Py_ssize_t', ('size', c)))
+    v, s = ('param', 'v'), ('param', 's')
+    return {
+        ('CppConvert.pyx', 'vector.from_py'): [lambda f, w: spec_seq_from(f, w, 'o', ('push_back',))],
+        ('CppConvert.pyx', 'list.from_py'): [lambda f, w: spec_seq_from(f, w, 'o', ('push_back',))],
+        ('CppConvert.pyx', 'set.from_py'): [lambda f, w: spec_seq_from(f, w, 'o', ('insert',))],
+        ('CppConvert.pyx', 'map.from_py'): [spec_map_from],
+        ('CppConvert.pyx', 'pair.from_py'): [spec_pair_from],
+        ('CppConvert.pyx', 'complex.from_py'): [spec_complex_from],
+        ('CppConvert.pyx', 'string.from_py'): [spec_string_from],
+        ('CppConvert.pyx', 'vector.to_py'): [lambda f, w: spec_indexed_to(f, w, 'list', ssize(v), lambda i: ('index', v, i), v)],
+        ('CppConvert.pyx', 'list.to_py'): [lambda f, w: spec_indexed_to(f, w, 'list', ssize(v), lambda lid: ('elem', v, lid), v)],
+        ('CppConvert.pyx', 'set.to_py'): [spec_set_to],
+        ('CppConvert.pyx', 'pair.to_py'): [spec_pair_to],
+        ('CppConvert.pyx', 'map.to_py'): [spec_map_to],
+        ('CppConvert.pyx', 'complex.to_py'): [spec_complex_to],
+        ('CppConvert.pyx', 'string.to_py'): [spec_string_to],
+        ('CConvert.pyx', 'carray.to_py'): [lambda f, w: spec_indexed_to(f, w, 'list', lambda n: n == ('param', 'length'), lambda i: ('index', v, i), None),
+                                           lambda f, w: spec_indexed_to(f, w, 'tuple', lambda n: n == ('param', 'length'), lambda i: ('index', v, i), None)],
+    }
+
+
+def spec_set_to(f, what):
+    probs = list(f.problems)
+    ret = _ret(f, what, probs)
+    if ret is None:
+        return probs
+    s = ('param', 's')
+    if not (ret[0] == 'setcomp' and ret[2] == s and ret[1] == ('elem', s, ret[3])):
+        probs.append('%s returns %s instead of the set of all elements of s' % (what, show(ret)))
+    return probs
+
+
+def spec_pair_to(f, what):
+    probs = list(f.problems)
+    ret = _ret(f, what, probs)
+    p = ('param', 'p')
+    if ret is not None and ret != ('tuple', ('attr', p, 'first'), ('attr', p, 'second')):
+        probs.append('%s returns %s instead of (p.first, p.second)' % (what, show(ret)))
+    return probs
+
+
+def spec_map_to(f, what):
+    probs = list(f.problems)
+    ret = _ret(f, what, probs)
+    if ret is None:
+        return probs
+    s = ('param', 's')
+    if not (ret[0] == 'new' and ret[1] == 'dict'):
+        probs.append('%s does not return a new dict' % what)
+        return probs
+    sets = [e for e in f.effects if e[0] == 'setitem']
+    loops = [l for l, d in f.loops.items() if d['kind'] == 'iter' and _norm(d['source']) == s and not d['ctx']]
+    if len(loops) != 1 or len(sets) != 1 or sets[0][2] != (('loop', loops[0]),):
+        probs.append('%s does not store exactly one item per position of a begin()..end() walk over s' % what)
+        return probs
+    lid = loops[0]
+    tgt, key, val = (_norm(a) for a in sets[0][1])
+    el = ('elem', s, lid)
+    if tgt != ret or key != ('attr', el, 'first') or val != ('attr', el, 'second'):
+        probs.append('%s stores o[%s] = %s instead of o[first] = second of the current element: keys and values are not preserved' % (what, show(key), show(val)))
+    adv = [e for e in f.effects if e[0] == 'advance' and e[2] == (('loop', lid),)]
+    if len(adv) != 1:
+        probs.append('%s advances its iterator %d times per element' % (what, len(adv)))
+    return probs
+
+
+def spec_complex_to(f, what):
+    probs = list(f.problems)
+    ret = _ret(f, what, probs)
+    if ret is None:
+        return probs
+    z = ('param', 'z')
+    sets = {e[1][1]: _norm(e[1][2]) for e in f.effects if e[0] == 'attrset' and _norm(e[1][0]) == ret and not e[2]}
+    for part in ('real', 'imag'):
+        want = ('cast', 'double', ('call', ('attr', z, part)))
+        if sets.get(part) != want:
+            probs.append('%s sets the %s part of the result to %s instead of <double>z.%s()' % (what, part, show(sets.get(part)) if part in sets else 'nothing', part))
+    return probs
+
+
+def spec_string_to(f, what):
+    probs = list(f.problems)
+    ret = _ret(f, what, probs)
+    if ret is None:
+        return probs
+    s = ('param', 's')
+    ok = ret[0] == 'call' and ret[1][0] == 'global' and ret[1][1].endswith('_FromStringAndSize') and len(ret) == 4 and \
+        ret[2] == ('call', ('attr', s, 'data')) and ret[3] == ('cast', 'Py_ssize_t', ('size', s))
+    if not ok:
+        probs.append('%s returns %s instead of <FromStringAndSize>(s.data(), <Py_ssize_t> s.size())' % (what, show(ret)))
+    if not _size_guard(f, s):
+        probs.append('%s casts s.size() to Py_ssize_t without the `s.size() > PY_SSIZE_T_MAX -> MemoryError` check: an oversized string yields a negative length' % what)
+    return probs
+
+
+# ---------------------------------------------------------------------------------------------- carray.from_py: small-scope interpretation
+class _Break(Exception):
+    pass
+
+
+class _Ret(Exception):
+    def __init__(self, v):
+        self.v = v
+
+
+class _PyExc(Exception):
+    def __init__(self, name):
+        self.name = name
+
+
+class ModelIterable:
+    def __init__(self, n, has_len):
+        self.items, self.has_len = ['item%d' % i for i in range(n)], has_len
+
+
+class ModelArray:
+    def __init__(self, length):
+        self.length, self.stores, self.oob = length, {}, []
+
+
+class TinyPy:
+    """Concrete interpretation of carray.from_py on model arguments (a C array that records its stores, an iterable with / without len())."""
+
+    def __init__(self, what):
+        self.what = what
+        self.raised = None
+
+    def run(self, fn, args):
+        env = dict(args)
+        try:
+            self.block(fn.body, env)
+        except _Ret as r:
+            return ('return', r.v)
+        except _PyExc as e:
+            return ('raise', e.name)
+        return ('fall-off', None)
+
+    def block(self, stmts, env):
+        for s in stmts:
+            self.stmt(s, env)
+
+    def ev(self, e, env):
+        if isinstance(e, ast.Constant):
+            return e.value
+        if isinstance(e, ast.Name):
+            if e.id in env:
+                return env[e.id]
+            return ('global', e.id)
+        if isinstance(e, ast.Tuple):
+            return tuple(self.ev(x, env) for x in e.elts)
+        if isinstance(e, ast.BinOp) and isinstance(e.op, ast.Pow) and isinstance(e.left, ast.Name) and e.left.id.startswith('__cast__'):
+            return self.ev(e.right, env)
+        if isinstance(e, ast.BinOp) and isinstance(e.op, (ast.Add, ast.Sub)):
+            a, b = self.ev(e.left, env), self.ev(e.right, env)
+            if isinstance(a, int) and isinstance(b, int):
+                return a + b if isinstance(e.op, ast.Add) else a - b
+        if isinstance(e, ast.UnaryOp) and isinstance(e.op, ast.Not):
+            return not self.ev(e.operand, env)
+        if isinstance(e, ast.BoolOp):
+            vs = [self.ev(v, env) for v in e.values]
+            return all(vs) if isinstance(e.op, ast.And) else any(vs)
+        if isinstance(e, ast.IfExp):
+            return self.ev(e.body if self.ev(e.test, env) else e.orelse, env)
+        if isinstance(e, ast.Compare) and len(e.ops) == 1:
+            a, b = self.ev(e.left, env), self.ev(e.comparators[0], env)
+            if isinstance(a, int) and isinstance(b, int):
+                op = e.ops[0]
+                return {ast.Eq: a == b, ast.NotEq: a != b, ast.Lt: a < b, ast.LtE: a <= b, ast.Gt: a > b, ast.GtE: a >= b}[type(op)]
+        if isinstance(e, ast.Call) and isinstance(e.func, ast.Name):
+            args = [self.ev(a, env) for a in e.args]
+            f = e.func.id
+            if f == '__decl__':
+                return args[1]
+            if f == 'len' and isinstance(args[0], ModelIterable):
+                if not args[0].has_len:
+                    raise _PyExc('TypeError')
+                return len(args[0].items)
+            if f == 'enumerate' and isinstance(args[0], ModelIterable):
+                return list(enumerate(args[0].items))
+            if f == 'PyErr_Format':
+                if isinstance(args[0], tuple) and args[0][0] == 'global':
+                    raise _PyExc(args[0][1])
+        raise AnalysisError('%s: expression %s is not modelled' % (self.what, ast.unparse(e)[:60]))
+
+    def stmt(self, s, env):
+        if isinstance(s, ast.Pass):
+            return
+        if isinstance(s, ast.Assign) and len(s.targets) == 1:
+            v = self.ev(s.value, env)
+            t = s.targets[0]
+            if isinstance(t, ast.Name):
+                env[t.id] = v
+                return
+            if isinstance(t, ast.Subscript):
+                arr, idx = self.ev(t.value, env), self.ev(t.slice, env)
+                if isinstance(arr, ModelArray) and isinstance(idx, int):
+                    if 0 <= idx < arr.length:
+                        arr.stores[idx] = v
+                    else:
+                        arr.oob.append(idx)
+                    return
+        elif isinstance(s, ast.AugAssign) and isinstance(s.target, ast.Name) and isinstance(s.op, (ast.Add, ast.Sub)):
+            a, b = env[s.target.id], self.ev(s.value, env)
+            env[s.target.id] = a + b if isinstance(s.op, ast.Add) else a - b
+            return
+        elif isinstance(s, ast.Expr):
+            if isinstance(s.value, ast.Constant):
+                return
+            self.ev(s.value, env)
+            return
+        elif isinstance(s, ast.If):
+            self.block(s.body if self.ev(s.test, env) else s.orelse, env)
+            return
+        elif isinstance(s, ast.Return):
+            raise _Ret(self.ev(s.value, env) if s.value is not None else None)
+        elif isinstance(s, ast.Break):
+            raise _Break()
+        elif isinstance(s, ast.Try) and not s.finalbody and not s.orelse:
+            try:
+                self.block(s.body, env)
+            except _PyExc as e:
+                for h in s.handlers:
+                    names = [h.type.id] if isinstance(h.type, ast.Name) else [x.id for x in h.type.elts] if isinstance(h.type, ast.Tuple) else []
+                    if e.name in names or h.type is None:
+                        self.block(h.body, env)
+                        return
+                raise
+            return
+        elif isinstance(s, ast.For):
+            seq = self.ev(s.iter, env)
+            if isinstance(seq, ModelIterable):
+                seq = list(seq.items)
+            if isinstance(seq, list):
+                broke = False
+                for x in seq:
+                    if isinstance(s.target, ast.Name):
+                        env[s.target.id] = x
+                    elif isinstance(s.target, ast.Tuple) and isinstance(x, tuple) and len(x) == len(s.target.elts):
+                        for t, y in zip(s.target.elts, x):
+                            env[t.id] = y
+                    else:
+                        raise AnalysisError('%s: loop target %s is not modelled' % (self.what, ast.unparse(s.target)))
+                    try:
+                        self.block(s.body, env)
+                    except _Break:
+                        broke = True
+                        break
+                if not broke:
+                    self.block(s.orelse, env)
+                return
+        raise AnalysisError('%s: statement %s is not modelled' % (self.what, ast.unparse(s)[:60]))
+
+
+def carray_from_problems(fn):
+    probs, n = [], 0
+    params = [a.arg for a in fn.args.args]
+    if len(params) != 3:
+        raise AnalysisError('C33-SHAPE: carray.from_py no longer takes (o, v, length)')
+    for length in (1, 2, 3):
+        for count in range(0, 5):
+            for has_len in (True, False):
+                n += 1
+                arr, it = ModelArray(length), ModelIterable(count, has_len)
+                res = TinyPy('carray.from_py').run(fn, {params[0]: it, params[1]: arr, params[2]: length})
+                desc = 'array length %d, iterable of %d items %s len()' % (length, count, 'with' if has_len else 'without')
+                if arr.oob:
+                    probs.append(('overrun', '%s: writes v[%s], outside the C array' % (desc, arr.oob[0])))
+                if count == length:
+                    if res != ('return', 0):
+                        probs.append(('exact', '%s: does not return 0 (%s): a correctly sized sequence is rejected' % (desc, res)))
+                    elif any(arr.stores.get(i) != 'item%d' % i for i in range(length)):
+                        probs.append(('copy', '%s: the array receives %s instead of item i in v[i]' % (desc, arr.stores)))
+                else:
+                    if res[0] == 'return':
+                        probs.append(('size', '%s: returns %r instead of raising IndexError: a sequence of the wrong size is converted' % (desc, res[1])))
+                    elif res != ('raise', 'IndexError'):
+                        probs.append(('size', '%s: ends with %s instead of IndexError' % (desc, res)))
+    return n, probs
+
+
+def rule_shape(ctx):
+    r = Rule('C33-SHAPE', 'conversion templates of CppConvert.pyx / CConvert.pyx have the shape of the conversion they implement (symbolic interpretation: every element exactly once, '
+                          'key/value and first/second roles, casts to the element types, slot I <- element I, INCREF before the stealing SET_ITEM, size range check; carray.from_py for '
+                          'lengths 1..3 x 0..4 items)', floor=40)
+    srcs = {'CppConvert.pyx': ctx.read(CPPCONV), 'CConvert.pyx': ctx.read(CCONV)}
+    secs = {k: pyx_sections(v) for k, v in srcs.items()}
+    rel = {'CppConvert.pyx': CPPCONV, 'CConvert.pyx': CCONV}
+    for (fname, sname), specs in sorted(shape_checks().items()):
+        if sname not in secs[fname]:
+            raise AnalysisError('C33-SHAPE: section %s missing from %s' % (sname, fname))
+        text, line = secs[fname][sname]
+        fns = template_functions(text)
+        if len(fns) != len(specs):
+            raise AnalysisError('C33-SHAPE: section %s of %s has %d functions, %d expected' % (sname, fname, len(fns), len(specs)))
+        for (name, fn, off), spec in zip(fns, specs):
+            key = '%s:%s%s' % (fname, sname, ':%d' % fns.index((name, fn, off)) if len(fns) > 1 else '')
+            what = '%s (%s)' % (sname, fname)
+            facts = SymInterp(what).run(fn)
+            r.inst(key, sample='%s: %d effects, %d loops' % (key, len(facts.effects), len(facts.loops)))
+            probs = spec(facts, what)
+            if probs:
+                r.violate(key, rel[fname], line + off, probs[0])
+    # carray.from_py
+    text, line = secs['CConvert.pyx'].get('carray.from_py', (None, 0))
+    if text is None:
+        raise AnalysisError('C33-SHAPE: section carray.from_py missing from CConvert.pyx')
+    fns = template_functions(text)
+    if len(fns) != 1:
+        raise AnalysisError('C33-SHAPE: carray.from_py has %d functions' % len(fns))
+    n, probs = carray_from_problems(fns[0][1])
+    for i in range(n):
+        r.inst('CConvert.pyx:carray.from_py:case%d' % i)
+    seen = set()
+    for k, what in probs:
+        if k in seen:
+            continue
+        seen.add(k)
+        r.violate('CConvert.pyx:carray.from_py:%s' % k, CCONV, line + fns[0][2], 'carray.from_py, %s' % what)
+    # positive control: a map.to_py that stores second under first swapped
+    pc = template_functions('cdef object f(const map[X,Y]& s):\n    o = {}\n    cdef map[X,Y].const_iterator iter = s.begin()\n    while iter != s.end():\n'
+                            '        kv = &cython.operator.dereference(iter)\n        o[kv.second] = kv.first\n        cython.operator.preincrement(iter)\n    return o\n')
+    r.positive_control(bool(spec_map_to(SymInterp('pc').run(pc[0][1]), 'pc')), 'map.to_py storing o[second] = first')
+    return r
+
+
+# ====================================================================================== C33-OUTLEN / C33-NEGCHK (fourth round)
+"""C33-OUTLEN — a C helper with a `Py_ssize_t *` out-parameter (the byte length that accompanies a returned buffer) stores through it, or
+hands it to a callee, on every path that returns something other than the error value NULL / -1.
+C33-NEGCHK — in TypeConversion.c the result of a call that returns a negative value exactly on failure (sizes, lengths, truth values,
+PyBytes_AsStringAndSize, the file's own __Pyx_ssize_strlen) is tested before its first use: the test is true for -1, false for 0 and for a
+positive value, and its true branch leaves the function."""
+from . import pC35 as _cfg
+
+STRICT_NEG = {     # CPython C-API: negative exactly on error (documented), never a legitimate result
+    'PyBytes_AsStringAndSize', 'PyByteArray_Size', 'PyUnicode_GetLength', 'PyObject_IsTrue', 'PyObject_RichCompareBool', 'PyObject_Size', 'PyObject_Length',
+    'PySequence_Size', 'PyList_Size', 'PyTuple_Size', 'PyDict_Size', 'PyBytes_Size', 'PyObject_Not', 'PySequence_Contains', 'PyDict_Contains', 'PySet_Contains',
+}
+
+
+def _tc_functions(ctx, predicate):
+    for name in sorted(ctx.cat.decls):
+        for d in ctx.cat.decls[name]:
+            if d.kind == 'func' and d.body and d.file == 'TypeConversion.c' and predicate(d):
+                yield name, d
+
+
+def outlen_problems(body, pname):
+    variants = _cfg.pp_variants(body)
+    if variants is None:
+        return None
+    probs = []
+    store = re.compile(r'(?<![\w.>])\*\s*%s\s*=(?!=)' % re.escape(pname))
+    passed = re.compile(r'[(,]\s*%s\s*[,)]' % re.escape(pname))
+
+    def transfer(kind, text, st):
+        if store.search(text) or passed.search(text):
+            return ['set']
+        return [st]
+    for label, text in variants:
+        cfg = _cfg.CFG(text)
+        for node, st in _cfg.run_dataflow(cfg, 'unset', transfer):
+            t = node.text.strip()
+            if not t:
+                continue
+            val = _cfg.strip_likely(t)
+            if re.fullmatch(r'NULL|0|-1|\(\s*[\w\s\*]+\)\s*(?:NULL|0|-1)', val):
+                continue
+            if st != 'set' and not passed.search('(' + t + ')') and not store.search(t):
+                probs.append('`return %s` [%s]' % (t, label))
+    return sorted(set(probs))
+
+
+def rule_outlen(ctx):
+    r = Rule('C33-OUTLEN', 'TypeConversion.c helpers with a Py_ssize_t* out-parameter store the length (or pass the pointer on) on every path that returns a buffer', floor=2)
+    for name, d in _tc_functions(ctx, lambda d: d.params is not None):
+        for ptype, pname in zip(d.param_types(), d.param_names()):
+            if ptype != 'Py_ssize_t *' or not pname or d.ret is None or 'void' == d.ret.strip():
+                continue
+            key = 'TypeConversion.c:%s:%s' % (name, pname)
+            if '{{' in d.body:
+                r.info('%s: Tempita-templated body, not analysed' % key)
+                continue
+            try:
+                probs = outlen_problems(d.body, pname)
+            except AnalysisError as e:
+                r.info('%s: not analysed (%s)' % (key, e))
+                continue
+            if probs is None:
+                r.info('%s: too many preprocessor variants' % key)
+                continue
+            r.inst(key, sample='%s(... Py_ssize_t *%s)' % (name, pname))
+            if probs:
+                r.violate(key, TCONV, d.line, '%s reaches %s without having stored *%s (and without passing %s to a callee): the caller reads an uninitialised length for the returned buffer '
+                          '(std::string / bytes of arbitrary size)' % (name, '; '.join(probs[:2]), pname, pname))
+    pc = '{ if (PyByteArray_Check(o)) { return PyByteArray_AS_STRING(o); } else { char *res; int r = PyBytes_AsStringAndSize(o, &res, length); if (r < 0) return NULL; return res; } }'
+    r.positive_control(bool(outlen_problems(pc, 'length')), 'bytearray branch returns the buffer without storing the length')
+    return r
+
+
+def _own_strict_neg(ctx):
+    """functions of TypeConversion.c whose negative returns are all `return -1` directly after a PyErr_Set* call, and that never return another negative constant"""
+    out = set()
+    for name, d in _tc_functions(ctx, lambda d: d.ret is not None and re.search(r'\b(Py_ssize_t|int)\b', d.ret or '') and '*' not in (d.ret or '')):
+        negs = re.findall(r'return\s+(-\s*\d+)\s*;', d.body)
+        if negs and all(n.replace(' ', '') == '-1' for n in negs) and re.search(r'PyErr_\w+\s*\([^;]*\)\s*;\s*return\s+-1\s*;', d.body) and \
+                len(re.findall(r'return\s+-1\s*;', d.body)) == len(re.findall(r'PyErr_\w+\s*\([^;]*\)\s*;\s*return\s+-1\s*;', d.body)):
+            out.add(name)
+    return out
+
+
+def negchk_problems(body, fallible):
+    """-> (n sites, [problem])"""
+    variants = _cfg.pp_variants(body)
+    if variants is None:
+        return 0, None
+    n, probs = 0, []
+    pat = re.compile(r'(?:^|[\s*])(\*?\s*[A-Za-z_]\w*)\s*=(?!=)\s*(?:\([^()]*\)\s*)?(%s)\s*\(' % '|'.join(re.escape(f) for f in sorted(fallible)))
+    for label, text in variants:
+        cfg = _cfg.CFG(text)
+        for nid, node in enumerate(cfg.nodes):
+            if node.kind != 'ev':
+                continue
+            m = pat.search(node.text)
+            if not m:
+                continue
+            lhs, fname = ''.join(m.group(1).split()), m.group(2)
+            n += 1
+            use = re.compile(r'(?<![\w.>])%s(?![\w(])' % re.escape(lhs))
+            seen, work = set(), list(node.succ)
+            while work:
+                x = work.pop()
+                if x in seen:
+                    continue
+                seen.add(x)
+                nd = cfg.nodes[x]
+                if nd.kind == 'nop' or not use.search(nd.text):
+                    if nd.kind == 'ret':
+                        continue
+                    work.extend(nd.succ)
+                    continue
+                if nd.kind == 'ret':
+                    if _cfg.strip_likely(nd.text) == lhs:
+                        continue                      # the error value is propagated as it is
+                    probs.append('the result of %s (negative on failure) is used in `return %s` without a test [%s]' % (fname, nd.text, label))
+                    continue
+                if nd.kind == 'ev':
+                    probs.append('the result of %s (negative on failure) is used in `%s` without a test [%s]' % (fname, nd.text[:60], label))
+                    continue
+                # a branch on the result: true for -1, false for 0 and 7, and the true branch leaves
+                cond = use.sub('__v', nd.text)
+                try:
+                    tree = cexpr.parse(cond)
+                    vals = [cexpr.evaluate(tree, {'__v': v}, calls={'unlikely': lambda a: a, 'likely': lambda a: a}) for v in (-1, 0, 7)]
+                except (cexpr.ParseError, cexpr.EvalError, TypeError):
+                    continue                          # a test the evaluator cannot decide: not an obligation
+                tb = cfg.nodes[nd.succ[0]]
+                while tb.kind == 'nop' and not tb.text.startswith('goto') and len(tb.succ) == 1:
+                    tb = cfg.nodes[tb.succ[0]]
+                leaves = tb.kind == 'ret' or tb.text.startswith('goto')
+                if not vals[0] or vals[1]:
+                    probs.append('the test `%s` after %s is %s for the error value -1 and %s for 0: %s [%s]' % (
+                        nd.text, fname, 'true' if vals[0] else 'false', 'true' if vals[1] else 'false',
+                        'the failure is not detected and the garbage result is used' if not vals[0] else 'a successful call is treated as a failure', label))
+                elif not leaves:
+                    probs.append('the error branch of `%s` after %s does not leave the function [%s]' % (nd.text, fname, label))
+    return n, sorted(set(probs))
+
+
+def rule_negchk(ctx):
+    r = Rule('C33-NEGCHK', 'TypeConversion.c: the result of a call that is negative exactly on failure is tested (true for -1, false for 0, error branch leaves) before its first use', floor=9)
+    fallible = set(STRICT_NEG) | _own_strict_neg(ctx)
+    total = 0
+    for name, d in _tc_functions(ctx, lambda d: True):
+        if '{{' in d.body:
+            continue
+        try:
+            n, probs = negchk_problems(d.body, fallible)
+        except AnalysisError as e:
+            r.info('TypeConversion.c:%s: not analysed (%s)' % (name, e))
+            continue
+        if probs is None:
+            r.info('TypeConversion.c:%s: too many preprocessor variants' % name)
+            continue
+        for i in range(n):
+            r.inst('TypeConversion.c:%s:site%d' % (name, i), sample='%s: %d fallible size/flag calls' % (name, n))
+        total += n
+        if probs:
+            r.violate('TypeConversion.c:%s' % name, TCONV, d.line, '%s: %s' % (name, probs[0]))
+    pc = '{ Py_ssize_t len = __Pyx_ssize_strlen(s); return PyByteArray_FromStringAndSize(s, len); }'
+    pc2 = '{ int r = PyBytes_AsStringAndSize(o, &res, length); if (unlikely(r > 0)) { return NULL; } else { return res; } }'
+    r.positive_control(bool(negchk_problems(pc, {'__Pyx_ssize_strlen'})[1]) and bool(negchk_problems(pc2, fallible)[1]), 'unchecked length; error test with the wrong sign')
+    return r
